@@ -15,14 +15,25 @@
 (***************************************************************************)
 EXTENDS Fx, Types
 
-Family(n) == CASE n \in {"linsrgb", "srgb", "hsl", "hsv", "hwb"} -> "rgb"
+Family(n) == CASE n \in {"linsrgb", "srgb", "hsl", "hsv", "hwb", "adobe", "linadobe", "p3", "linp3", "rec2020", "linrec2020", "rec709",
+                      "hsv_adobe", "hsl_p3", "hwb_rec2020", "prophoto", "linprophoto", "hsv_prophoto", "dcip3", "lindcip3"} -> "rgb"
                [] n \in {"oklab", "oklch", "okhsl", "okhsv", "okhwb"} -> "ok"
                [] OTHER -> "cie"
 IsLuma(n) == n \in {"linluma", "srgbluma"}
 
-(* does the walk cross a hard-coded RGB <-> XYZ matrix pair (values or hub images)? *)
+(* the primaries (hard-coded matrix pair) behind an RGB-family node *)
+RgbSpaceOf(n) == CASE n \in {"adobe", "linadobe", "hsv_adobe"} -> "adobe"
+                   [] n \in {"p3", "linp3", "hsl_p3"} -> "p3"
+                   [] n \in {"rec2020", "linrec2020", "hwb_rec2020"} -> "rec2020"
+                   [] n \in {"prophoto", "linprophoto", "hsv_prophoto"} -> "prophoto"
+                   [] n \in {"dcip3", "lindcip3"} -> "dci"
+                   [] OTHER -> "srgb"            \* srgb, linsrgb, rec709 and their hexcone forms share the BT.709 primaries
+(* does the walk cross a hard-coded RGB <-> XYZ matrix pair (values or hub images)?  Yes when it mixes RGB-family
+   nodes with others, or RGB-family nodes of different primaries. *)
 CrossesRgbMatrix(nodes) == (\E i \in DOMAIN nodes : Family(nodes[i]) = "rgb")
-                           /\ (\E i \in DOMAIN nodes : Family(nodes[i]) # "rgb")
+                           /\ ((\E i \in DOMAIN nodes : Family(nodes[i]) # "rgb")
+                               \/ (\E i, j \in DOMAIN nodes : Family(nodes[i]) = "rgb" /\ Family(nodes[j]) = "rgb"
+                                                              /\ RgbSpaceOf(nodes[i]) # RgbSpaceOf(nodes[j])))
 
 (* relative to the magnitude of the XYZ vector (errors of matrices and of the cube scale with it);
    calibration, relative: f64 crossing 1.3e-7, not crossing 2.6e-15; f32 3.6e-6 *)
@@ -44,8 +55,8 @@ RangeOf(node, i) == LET b == DocBounds[node][i]
                     IN IF b[1] = NoB \/ b[2] = NoB THEN FxOne
                        ELSE FxSub(DocFx(b[2]), DocFx(b[1]))
 (* index of the chroma-like component that conditions the hue (0: none) *)
-ChromaIdx(node) == CASE node \in {"lch", "lchuv", "oklch"} -> 2
-                     [] node \in {"hsluv", "okhsl", "okhsv", "hsl", "hsv"} -> 2
+ChromaIdx(node) == CASE node \in {"lch", "lchuv", "oklch", "lch50"} -> 2
+                     [] node \in {"hsluv", "okhsl", "okhsv", "hsl", "hsv", "hsv_adobe", "hsl_p3", "hsv_prophoto"} -> 2
                      [] OTHER -> 0
 Fx360 == FxInt(360)
 (* circular distance of two angles in degrees *)
@@ -58,7 +69,7 @@ OwnNear(node, t, v1, v2) ==
     IF i = HueIdx(node)
     THEN (* hue: only where the chroma-like component is at least 5% of its range; 0.5 / 0.05 degrees *)
          LET ci == ChromaIdx(node)
-             wellcond == node \notin {"hwb", "okhwb"} /\ ci # 0 /\
+             wellcond == node \notin {"hwb", "okhwb", "hwb_rec2020"} /\ ci # 0 /\
                          FxLe(FxDivInt(RangeOf(node, ci), 20), FxMin(FxOf(v1[ci]), FxOf(v2[ci])))
          IN wellcond => FxLe(HueDist(FxOf(v1[i]), FxOf(v2[i])), IF t = "f32" THEN FxRat(1, 2) ELSE FxRat(1, 20))
     ELSE FxLe(FxAbs(FxSub(FxOf(v1[i]), FxOf(v2[i]))), FxShr(RangeOf(node, i), OwnBits(t)))
